@@ -48,7 +48,7 @@ Pick(s, S)  == IF s = <<>> THEN <<>>
                ELSE LET idx == SetToSortSeq(S, <) IN [k \in 1..Len(idx) |-> s[idx[k]]]
 Rank(i, S)  == Cardinality({ j \in S : j <= i })
 
-RunFns      == Fns \cup {"probe", "probe2", "boom"}      \* probe2: a test of the SAME name registered in another module
+RunFns      == Fns \cup {"probe", "probe2", "boom", "needpos"}      \* probe2: a test of the SAME name registered in another module
 ModName(fn) == CASE fn = "valid" -> "axds" [] fn \in {"press", "speed", "probe2"} -> "argo" [] OTHER -> "qartod"
 Loadable(e) == e.fn \in RunFns                         \* module and test name exist
 HasStream(tb, e) == e.stream \in DOMAIN tb.data        \* the data has that stream id
@@ -61,12 +61,13 @@ CallOn(tb, e, S) ==
 MissingInput(tb, e) ==                                 \* the stream cannot supply a required input
     \/ e.fn = "dens" /\ tb.z = <<>>
     \/ e.fn \in {"roc", "flat", "att", "clim", "speed"} /\ ~tb.hastime
+    \/ e.fn = "needpos" /\ (tb.lat = <<>> \/ tb.lon = <<>>)   \* a registered test whose position arguments have no default
 
 \* <<>> when the test produces no result (it raised), else << flags, admissible >>: where the rule of the test leaves a
 \* flag open (a spike next to a missing value), "admissible" holds every flag the rule allows and "flags" one of them
 RunResult(tb, e, S) ==
     IF e.fn = "boom" \/ MissingInput(tb, e) THEN <<>>
-    ELSE IF e.fn \in {"probe", "probe2"} THEN << [i \in 1..Cardinality(S) |-> GOOD], [i \in 1..Cardinality(S) |-> {GOOD}] >>
+    ELSE IF e.fn \in {"probe", "probe2", "needpos"} THEN << [i \in 1..Cardinality(S) |-> GOOD], [i \in 1..Cardinality(S) |-> {GOOD}] >>
     ELSE LET r == Rule(CallOn(tb, e, S), FALSE) IN
          IF r.ok THEN << [i \in 1..Len(r.flags) |-> CHOOSE f \in r.flags[i] : TRUE], r.flags >> ELSE <<>>
 
